@@ -5,6 +5,7 @@ package a07ammo
 // hex string per configured "[Name: value]" entry, in configuration order).
 
 import (
+	"strconv"
 	"strings"
 
 	"verifharness/internal/vh"
@@ -81,6 +82,79 @@ func GenCfgCases(r *vh.Rand, n int) []string {
 		if i%2 == 0 {
 			for _, f := range []string{"uri", "uripost", "raw", "json"} {
 				out = append(out, withCfg(r, GenCaseX(r, f, false, r.Chance(1, 2))))
+			}
+		}
+	}
+	return out
+}
+
+// ---------------------------------------------------------------------------------------
+// middlewares ("~..." suffix of the passes field, see MWSpec)
+
+var mwDateNames = []string{"", "", "Date", "date", "X-Date", "x-now", "Content-Type", "A", "User-Agent"}
+var mwLocations = []string{"-", "-", "UTC", "EST", "Europe/Moscow", "Asia/Tokyo"}
+
+func genDateMW(r *vh.Rand) string {
+	return "d" + r.Pick(mwLocations) + "." + vh.HexS(r.Pick(mwDateNames))
+}
+
+// genMWField: mostly one header/date; sometimes two; sometimes with a middleware that refuses the n-th
+// request (n within or just after the deliveries of the case); rarely one whose initialisation fails.
+func genMWField(r *vh.Rand, k int) string {
+	var ms []string
+	switch {
+	case r.Chance(1, 16):
+		ms = []string{"i"}
+		if r.Chance(1, 2) {
+			ms = append(ms, genDateMW(r))
+		}
+	case r.Chance(1, 5):
+		ms = []string{genDateMW(r), "f" + strconv.Itoa(r.Range(1, k+1))}
+		if r.Chance(1, 2) {
+			ms[0], ms[1] = ms[1], ms[0]
+		}
+	case r.Chance(1, 5):
+		ms = []string{genDateMW(r), genDateMW(r)}
+	default:
+		ms = []string{genDateMW(r)}
+	}
+	return "~" + strings.Join(ms, ",")
+}
+
+func withMW(r *vh.Rand, c string) string {
+	f := strings.SplitN(c, " ", 5)
+	if len(f) < 5 {
+		return c
+	}
+	// number of requests of the case and its passes
+	n := 0
+	for _, t := range strings.Split(f[4], " ") {
+		if strings.HasPrefix(t, "R:") || strings.HasPrefix(t, "E:") {
+			n++
+		}
+	}
+	p := 1
+	if len(f[1]) > 0 && f[1][0] >= '1' && f[1][0] <= '9' {
+		p = int(f[1][0] - '0')
+	}
+	return f[0] + " " + f[1] + genMWField(r, p*n+1) + " " + f[2] + " " + f[3] + " " + f[4]
+}
+
+// GenMWCases: per format n cases with middlewares (half of them with configured headers too), and n/2 with
+// an instance schedule / short reads.
+func GenMWCases(r *vh.Rand, n int) []string {
+	var out []string
+	opt := func(c string) string {
+		if r.Chance(1, 2) {
+			c = withCfg(r, c)
+		}
+		return withMW(r, c)
+	}
+	for i := 0; i < n; i++ {
+		out = append(out, opt(GenURICase(r)), opt(GenURIPostCase(r)), opt(GenRawCase(r)), opt(GenJSONCase(r)))
+		if i%2 == 0 {
+			for _, f := range []string{"uri", "uripost", "raw", "json"} {
+				out = append(out, opt(GenCaseX(r, f, false, r.Chance(1, 2))))
 			}
 		}
 	}
